@@ -110,7 +110,11 @@ def generate(seed, tier):
           "collect": r.random() < 0.5, "fire_count": r.choice(("1", "2", "-1")),
           "logger": r.choice(("rec", "rec", "python")), "via": r.choice(("service", "register")),
           "knobs": common.draw_knobs(r, stall_p=0.0)}
-    if r.random() < 0.1:
+    if r.random() < 0.08:
+        # the agent is shut down and started again before hit number restart_at: the plugins are loaded afresh, the
+        # messages of the second life go to the logger of the second life
+        sc.update(logger="rec", restart_at=r.randrange(1, len(sc["rows"])))
+    elif r.random() < 0.1:
         # a collecting tracepoint shares the line with the log-only one, and another thread shuts the agent down while
         # the event of hit number stop_at is being completed: the snapshot is refused, the message is not affected
         sc.update(collect=False, via="service", fire_count="-1", logger="rec", stop_at=r.randrange(0, len(sc["rows"])))
@@ -128,6 +132,8 @@ def shrink_candidates(s):
         yield dict(s, collect=False)
     if s.get("stop_at") is not None:
         yield {k_: v for k_, v in s.items() if k_ != "stop_at"}
+    if s.get("restart_at") is not None:
+        yield {k_: v for k_, v in s.items() if k_ != "restart_at"}
 
 
 def execute(s, ch):
@@ -170,6 +176,11 @@ def execute(s, ch):
 
     def mid(w, k, i):
         state["hit"] = i
+        if s.get("restart_at") == i:
+            k.fault("restart")
+            w.deep.shutdown()
+            w.start()
+            common.wait_until(k, lambda: len(w.handler._tp_config) > 0, 60)
     plugins = [{"name": "RecLogger", "kinds": ["logger"], "order": -5}] if s["logger"] == "rec" else []
     import logging
     logging.getLogger("deep").setLevel(logging.INFO if s["logger"] == "python" else logging.WARNING)
@@ -283,6 +294,9 @@ def execute(s, ch):
                 viol.append(V("context-id-differs-from-snapshot", "%r vs %r" % (a_ctx, ctx_attr)))
         elif snaps:
             viol.append(V("log-only-tracepoint-collected", "hit %d" % h.index))
+    if w.sink.stale and s.get("restart_at") is not None:
+        viol.append(V("message-went-to-a-logger-that-was-shut-down", "callbacks on plugin instances of an earlier life of "
+                      "the agent: %s" % w.sink.stale[:3]))
     k.probe("messages_checked", checked)
     key = repr((tmpl, s["rows"], s["collect"], s["logger"])) if checked and fields else None
     seen, vs = set(), []
